@@ -5,6 +5,8 @@ import BqVerif.Proofs.PickleBridge
 import BqVerif.Proofs.PickleRec
 import BqVerif.Proofs.PickleErr
 import BqVerif.Proofs.CircKahn2
+import BqVerif.Proofs.PickleKey
+import BqVerif.Proofs.PickleKeyNec
 /-!
 C16 — objects shipped between processes arrive equal to what was sent.
 
@@ -149,6 +151,99 @@ theorem C16_idle_cycle_witness :
   rw [h0] at h
   cases h
   exact ⟨by decide, by decide⟩
+
+/-! ### (a') the gate table is a dictionary keyed by the gates' own equality -/
+
+/-- `_gate_info` / `gate_table` are Python dicts: what decides the slot of a gate is its
+`__hash__`/`__eq__`, here an arbitrary `key`.  `rebuild (reduce c) = c` REQUIRES the key to
+separate the gates that occur in the circuit:
+* if it does (`c.KeyInj key`), the dictionary-keyed payload is the payload of `reduceWith` for a
+  listing of the gate set and the round trip returns `c` (row-major iteration, and the DAG
+  iteration the code uses), with the layout conclusions of `C16_reduce_rebuild`;
+* conversely, for ANY table: if every operation of `c` comes back as itself through
+  `gate_table[op.gate]` and `Operation(gate_table[i], …)`, the key separates the gates of `c`.
+The hypothesis is tied to the code dynamically: on every shipped circuit the harness evaluates
+the real `==` against an independent description of the gates (`gate-key-not-injective`) and
+compares what arrives per operation by that description and by the unitary. -/
+theorem C16_reduce_rebuild_keyed {K : Type} [DecidableEq K] (c : Circ) (hi : c.Inv)
+    (hr : c.radOk = true) (key : GateId → K) (hinj : c.KeyInj key) :
+    (c.reduceKey key c.iterCyc).rebuild = .ok c.canon ∧
+    (c.reduceKey key c.iterKahn).rebuild = .ok c.canon ∧
+    SameLayout c.canon c ∧ (∀ k q, c.canon.cell k q = c.cell k q) ∧
+    (∀ q, c.canon.timeline q = c.timeline q) := by
+  have h1 : (c.reduceKey key c.iterCyc).rebuild = .ok c.canon := by
+    rw [reduceKey_eq_reduceWith c key hinj c.iterCyc (mem_iterCyc_ops' c)]
+    exact reduceWith_rebuild_rowmajor c hi hr _ (keyTable_lists c key hinj)
+  refine ⟨h1, ?_, canon_sameLayout c, sameLayout_cell (canon_sameLayout c) hi,
+    sameLayout_timeline (canon_sameLayout c) hi⟩
+  rw [iterKahn_eq_iterCyc c hi]; exact h1
+
+/-- necessity: a round trip that returns every operation forces a separating key -/
+theorem C16_keyed_requires_injective {K : Type} [DecidableEq K] (c : Circ) (key : GateId → K)
+    (tbl : List GateId) (h : ∀ o ∈ c.ops, mkOp tbl (marshalKey key tbl o) = .ok o) :
+    c.KeyInj key ∧ c.keyInjB key = true :=
+  ⟨keyInj_of_roundtrip c key tbl h, (keyInjB_iff c key).2 (keyInj_of_roundtrip c key tbl h)⟩
+
+/-- **`rebuild (reduce c) = c` ⇔ the key separates the gates of `c`** — for every well-formed
+circuit and every key.  (⇐) is `C16_reduce_rebuild_keyed`; (⇒): `rebuild_circuit` is sound (the
+cycles it returns are the payload's groups, each marshalled operation rebuilt through its table
+slot, `rebuild_sound`), so a payload that rebuilds to `c` returned every operation as itself. -/
+theorem C16_reduce_rebuild_keyed_iff {K : Type} [DecidableEq K] (c : Circ) (hi : c.Inv)
+    (hr : c.radOk = true) (key : GateId → K) :
+    (c.reduceKey key c.iterCyc).rebuild = .ok c.canon ↔ c.KeyInj key :=
+  ⟨keyInj_of_rebuild c hi.1 key, fun h => (C16_reduce_rebuild_keyed c hi hr key h).1⟩
+
+/-- the full identity is a separating key for every circuit (this is what `Model/Pickle` uses) -/
+theorem C16_keyInj_id (c : Circ) : c.KeyInj (fun g => g) := fun _ _ _ _ h => h
+
+/-- Witness (seeded change C16-6): a qutrit control on qudit 0, `gid 1` = "X on the target when
+the control is |1>", `gid 2` = "… when the control is |2>"; a key that looks at radixes and
+parameter count only (`ControlledGate.__eq__` without `control_levels`) puts both into one slot:
+the circuit that arrives carries `gid 1` twice — another circuit, which the coarse equality
+itself cannot tell from the one sent; with the full identity as key the circuit arrives. -/
+def lvlC : Circ := ⟨[3, 2, 2], [[⟨1, [], [0, 1], [3, 2]⟩], [⟨2, [], [0, 2], [3, 2]⟩]]⟩
+def lvlArrived : Circ := ⟨[3, 2, 2], [[⟨1, [], [0, 1], [3, 2]⟩], [⟨1, [], [0, 2], [3, 2]⟩]]⟩
+def coarseKey (g : GateId) : List Nat × Nat := (g.rad, g.npar)
+
+theorem C16_coarse_key_witness :
+    lvlC.keyInjB coarseKey = false ∧
+    (lvlC.reduceKey coarseKey lvlC.iterCyc).rebuild = .ok lvlArrived ∧
+    (lvlC.reduceKey coarseKey lvlC.iterKahn).rebuild = .ok lvlArrived ∧
+    lvlArrived ≠ lvlC.canon ∧ lvlArrived.cell 1 2 ≠ lvlC.cell 1 2 ∧
+    lvlArrived.ops.map (fun o => (coarseKey o.gate, o.par, o.loc)) =
+      lvlC.ops.map (fun o => (coarseKey o.gate, o.par, o.loc)) ∧
+    (lvlC.reduceKey (fun g => g) lvlC.iterKahn).rebuild = .ok lvlC.canon := by
+  refine ⟨by decide, by decide, by decide, by decide, by decide, by decide, by decide⟩
+
+theorem lvlC_inv : lvlC.Inv := by
+  refine ⟨by decide, ?_, ?_⟩
+  · intro cy hcy
+    simp only [lvlC, List.mem_cons, List.not_mem_nil, or_false] at hcy
+    rcases hcy with rfl | rfl <;> simp
+  · intro cy hcy o ho
+    simp only [lvlC, List.mem_cons, List.not_mem_nil, or_false] at hcy
+    rcases hcy with rfl | rfl <;>
+    · simp only [List.mem_cons, List.not_mem_nil, or_false] at ho
+      subst ho; exact ⟨by decide, by decide, by decide, by decide⟩
+
+example : (lvlC.reduceKey (fun g => g) lvlC.iterKahn).rebuild = .ok lvlC.canon :=
+  (C16_reduce_rebuild_keyed lvlC lvlC_inv (by decide) _ (C16_keyInj_id lvlC)).2.1
+example : (exC.reduceKey GateId.gid exC.iterCyc).rebuild = .ok exC.canon :=
+  (C16_reduce_rebuild_keyed exC exC_inv (by decide) _
+    ((keyInjB_iff exC GateId.gid).1 (by decide))).1
+example : lvlC.KeyInj (fun g => g) ∧ lvlC.keyInjB (fun g => g) = true :=
+  C16_keyed_requires_injective lvlC _ (keyTable (fun g => g) lvlC.gates) (by decide)
+example : ¬ lvlC.KeyInj coarseKey := by
+  intro h
+  have h1 := (C16_reduce_rebuild_keyed_iff lvlC lvlC_inv (by decide) coarseKey).2 h
+  rw [C16_coarse_key_witness.2.1] at h1
+  exact C16_coarse_key_witness.2.2.2.1 (Except.ok.inj h1)
+example : lvlC.KeyInj (fun g => g) :=
+  (C16_reduce_rebuild_keyed_iff lvlC lvlC_inv (by decide) _).1
+    (by rw [← iterKahn_eq_iterCyc lvlC lvlC_inv]; exact C16_coarse_key_witness.2.2.2.2.2.2)
+/-- the hypothesis of `C16_keyed_requires_injective` fails for the coarse key (contrapositive) -/
+example : ¬ ∀ o ∈ lvlC.ops, mkOp (keyTable coarseKey lvlC.gates)
+    (marshalKey coarseKey (keyTable coarseKey lvlC.gates) o) = .ok o := by decide
 
 /-! ### (b) `copy` / `become` assign every field -/
 
